@@ -291,6 +291,16 @@ pub fn judge(case: &Case) -> Outcome {
     match case.kind.as_str() {
         "c10.find" => judge_find(case),
         "c10.rule_forms" => judge_forms(case),
+        // a rule over hundreds of distinct fields: every predicate has to be decided by its own
+        // field, also after the optimiser has turned the rule into a matrix
+        "c10.wide" => match c02::eval_case(case) {
+            Ok(r) => Outcome::Pass {
+                nontrivial: if r.iter().any(|x| x.0 == crate::engine::Tri::T) { Some(hash_str(&case.rules[0])) } else { None },
+                evaluations: 6 * case.docs.len() as u64,
+                labels: vec!["wide_rule"],
+            },
+            Err(o) => o,
+        },
         _ => Outcome::Skip("unknown case kind".into()),
     }
 }
@@ -431,7 +441,9 @@ pub fn run(tier: &str, seed: u64) -> i32 {
         HashMap<String, model value>, serde_json Value) must equal the independent resolver (value identity, \
         not just kind). Rule level: every dotted path of 2-3 plain segments as key `p: v` and as nested mappings, \
         both judged against the reference and against each other when all intermediates are objects. Totality: \
-        hand-picked degenerate keys and random key strings never panic. Non-trivial: a lookup that succeeds \
+        hand-picked degenerate keys and random key strings never panic; a key with several indices in one segment \
+        is missing or fully descended, never a shorter path. Wide rules (100-380 distinct fields, dense documents): every \
+        predicate is decided by its own field, also after optimisation (reference + optimised agreement). Non-trivial: a lookup that succeeds \
         through >= 2 steps or an index, or fails at a step after the first; distinct by (document, path)."
         .into();
     report.assumptions = vec!["only well-formed paths (name or name[digits] segments) are compared with the resolver; other keys are checked for totality".into()];
@@ -582,6 +594,22 @@ pub fn run(tier: &str, seed: u64) -> i32 {
     for s in subs {
         report.merge(s);
     }
+
+    // wide rules
+    gen::drive(
+        &mut report,
+        6,
+        if tier == "thorough" { 600 } else { 60 },
+        || (gen::rule_wide(), prop::collection::vec(any::<u16>(), 24)),
+        |(rule, picks): &(crate::spec::RuleSpec, Vec<u16>)| {
+            let mut c = Case::new("c10.wide");
+            c.rules = vec![rule.text(), rule.negated_text()];
+            c.docs = gen::wide_docs(rule, picks);
+            vec![c]
+        },
+        judge,
+        |_, _| {},
+    );
 
     // totality on random keys
     let n = if tier == "thorough" { 300_000 } else { 30_000 };
